@@ -70,7 +70,8 @@ func GetMessageOfEviction(ssn *framework.Session, actionType framework.ActionTyp
 		msg := api.GetReclaimMessage(preempteeTask, preemptorJob)
 
 		var queueDetails string
-		if reclaimeeQueue.ParentQueue == reclaimerQueue.ParentQueue {
+		if reclaimeeQueue.ParentQueue == reclaimerQueue.ParentQueue ||
+			reclaimerParentQueue == nil || reclaimeeParentQueue == nil {
 			queueDetails = getReclaimMessageQueuesDetails(ssn, preempteeTask, preemptorJob,
 				reclaimerQueue, reclaimeeQueue)
 		} else {
